@@ -75,7 +75,7 @@ def gen(repo):
 
     # ---- command queue: both enqueue overloads push under _cmdMutex; process() swaps under it and walks the batch front to back
     enq = [cxxscan.function_body(esrc, "enqueue", signature_contains="const Command"), cxxscan.function_body(esrc, "enqueue", signature_contains="Command &&")]
-    enq_locked = all(_under_lock(b, r"_cmds\s*\.\s*push_back\s*\(", "_cmdMutex", "enqueue") for b in enq)
+    enq_locked = all(_under_lock(b, r"_cmds\s*\.\s*\w+\s*\(", "_cmdMutex", "enqueue") for b in enq)
     enq_push = []
     for b in enq:
         enq_push += re.findall(r"_cmds\s*\.\s*(\w+)\s*\(", b)
